@@ -1265,6 +1265,63 @@ def run(ctx):
         ctx.sample({"stream": "evaluate_expression", "expr": ecases[0]["expr"], "impl": _obs_json(ecases[0]["obs"])})
     n_bad += len(bad_e)
 
+    # ---- evaluate_expression: all flag combinations, magnitudes 1e-40 .. 1e40, free symbols (specification check) ---------
+    fcases = list(EVAL_FIXED) + [(gen_flag_expr(ctx.rng), ctx.rng.choice(EVAL_KWARGS)) for _ in range(ctx.pick(250, 2000))]
+    n_flag_dec = 0
+    for src, kw in fcases:
+        try:
+            ok, detail = spec_evaluate_flags(src, kw)
+        except Exception as e:  # pylint: disable=broad-except
+            ok, detail = None, f"{type(e).__name__}: {e}"
+        n_flag_dec += ok is not None
+        if ok is False:
+            ctx.violation(f"C07:evaluate-flags:{src}:{sorted(kw.items())}",
+                f"evaluate_expression({src}, evaluate=True, **{kw}) is not the numeric value of evaluate=False: {detail}",
+                {"kind": "violation", "stream": "evaluate-flags", "expr": src, "kwargs": kw, "observed": detail,
+                 "expected": "evaluate=True agrees with evaluate=False to the requested relative precision (no absolute cut)",
+                 "theorem_or_tie": "evaluate_preserves_value + numeric agreement of the evalf path (specification check)"}, True)
+    ctx.evaluated(len(fcases), len({(a, str(b)) for a, b in fcases}))
+    ctx.coverage["evaluate_flag_cases"] = len(fcases)
+    ctx.coverage["evaluate_flag_decisive"] = n_flag_dec
+    ctx.sample({"stream": "evaluate-flags", "expr": fcases[5][0], "kwargs": fcases[5][1]})
+
+    # ---- Celsius objects with a history (converted, mutated, converted again; two equal-valued objects) ----------------
+    hseqs = stream_celsius_history(ctx, ctx.pick(120, 1000), py["offset"])
+    hflat = [(si, k, lit) for si, q in enumerate(hseqs) for k, (lit, _r) in enumerate(q["results"])]
+    bad_ch = coqrun.eval_cases(ctx, "celsius_history", pre, [x[2] for x in hflat], celsius_check_text(),
+        case_type="(Q * Q * Q * bool * cres * result val) + ((val * dim) * result val)")
+    done = set()
+    for i in bad_ch:
+        si, k, lit = hflat[i]
+        if si in done or len(done) >= 5:
+            continue
+        done.add(si)
+        q = hseqs[si]
+        vals = q["values"]
+        is_other = k >= len(vals)
+        seq = vals[:k + 1] if not is_other else vals
+        # minimise: the failing value alone on a fresh object, then every single earlier value before it
+        cand = [[seq[-1]]] + [[v, seq[-1]] for v in seq[:-1]] if not is_other else [seq[:1] + [v] for v in seq[1:]] + [seq]
+        chosen, rec = seq, q["results"][k][1]
+        for cnd in cand:
+            r = run_celsius_history(cnd, py["offset"], is_other)
+            if r[-1][1]["spec"] is False:
+                chosen, rec = cnd, r[-1][1]
+                break
+        ctx.violation(f"C07:celsius-history:{chosen}:{'second-object' if is_other else 'same-object'}",
+            f"Celsius object given the values {chosen} in turn" + (" (then a second object with the first value)" if is_other else "")
+            + f": at value {rec['c']!r} to_kelvin = {rec['kelvin']!r} but to_kelvin_quantity = {rec['obs_q'][1:2]}, round trip = {rec['obs_b'][1:2]}",
+            {"kind": "disagreement", "stream": "celsius-history", "values": [repr(v) for v in chosen], "second_object": is_other,
+             "observed": {"celsius": repr(rec["c"]), "to_kelvin": repr(rec["kelvin"]), "to_kelvin_quantity": str(rec["obs_q"][:3]),
+                          "from_kelvin_quantity(to_kelvin_quantity)": str(rec["obs_b"][:2])}, "gallina_last_step": lit,
+             "expected": "every call reflects the CURRENT value of the Celsius object (stateless model): kelvin = value + 273.15 and back",
+             "theorem_or_tie": "celsius_quantity_roundtrip + correspondence on mutated Celsius objects"}, rec["spec"] is False)
+    ctx.evaluated(len(hflat), len({x[2] for x in hflat}))
+    ctx.coverage["celsius_history_sequences"] = len(hseqs)
+    n_bad += len(bad_ch)
+    if hseqs:
+        ctx.sample({"stream": "celsius-history", "values": hseqs[0]["values"], "second_object": hseqs[0]["two"]})
+
     # ---- Celsius -------------------------------------------------------------------------------
     tcases, n_float, float_failures = stream_celsius(ctx, ctx.pick(600, 5000), py["offset"])
     bad_t = coqrun.eval_cases(ctx, "celsius", pre, [c["lit"] for c in tcases], celsius_check_text(),
@@ -1312,7 +1369,116 @@ def run(ctx):
         "of one class; extra-dimension: information units and user-defined Dimension objects in value / target / both, verdicts against "
         "the dimsys_SI dependency predicate (no model); evaluate: random Add/Mul/Pow trees (depth <= 3) over 1-3 leaves, 35% of them plain "
         "sympy unit / constant atoms, result must be a pure number; celsius: exact dyadic stream + 1e-6..1e7 "
-        "magnitudes of both signs.  distinct = distinct Gallina literals; non-trivial (convert) = not (same class and result 1)")
+        "magnitudes of both signs; celsius-history: one Celsius object given 2-4 seeded values in turn (incl. -273.15, +-0, 1e15) and a second "
+        "equal-valued object, every observation compared with the stateless model; evaluate-flags: monomials over quantities and sympy "
+        "constants with magnitudes 1e-40..1e40 and free symbols, evaluate=True/False x {n=3,8,30, maxn} (relative agreement).  distinct = distinct Gallina literals; non-trivial (convert) = not (same class and result 1)")
+
+
+# ---- Celsius objects with a history: one object converted, mutated, converted again --------------------------------
+CELSIUS_VALUES = [20.0, 100.0, 0.0, -0.0, 25.5, -40.0, 1e6, 1e15, -1e9, 37.0, 1.5e-7, 300.0]
+
+
+def celsius_observe(obj, off_fr):
+    """the observations of stream_celsius on an EXISTING Celsius object -> (case literal, record)"""
+    from symplyphysics.core.symbols.celsius import to_kelvin, from_kelvin, to_kelvin_quantity, from_kelvin_quantity  # pylint: disable=import-outside-toplevel
+    c = float(obj.value)
+    kel = to_kelvin(obj)
+    back = from_kelvin(kel).value
+    ex = Fraction(c) + off_fr == Fraction(kel) and Fraction(kel) - off_fr == Fraction(back)
+    obs_q = qx.cres_of_impl(lambda: (lambda q: (q.scale_factor, q.dimension))(to_kelvin_quantity(obj)))
+    try:
+        cq = from_kelvin_quantity(to_kelvin_quantity(obj)).value
+        obs_b = ("ok", ("Q", Fraction(cq)), cq)
+    except Exception as e:  # pylint: disable=broad-except
+        obs_b = ("err", qx.err_class(e), str(e)[:100])
+    lit = (f"(inl ({qx.q_lit(Fraction(c))}, {qx.q_lit(Fraction(kel))}, {qx.q_lit(Fraction(back))}, {'true' if ex else 'false'}, "
+        f"{qx.cres_lit(obs_q)}, {rval_lit(obs_b)}))")
+    ok = obs_b[0] == "ok" and abs(obs_b[2] - c) <= 4 * math.ulp(max(abs(c), 273.15)) and obs_q[0] == "ok" and obs_q[1][0] == "Q" \
+        and abs(obs_q[1][1] - Fraction(kel)) <= Fraction(1, 10**9) * (1 + abs(Fraction(kel)))
+    return lit, {"c": c, "kelvin": kel, "back": back, "obs_q": obs_q, "obs_b": obs_b, "spec": ok}
+
+
+def run_celsius_history(values, off_fr, two_objects=False):
+    """values assigned one after the other to ONE Celsius object (with two_objects: a second, distinct object gets the same
+    first value and is observed after the first one was mutated); every observation must be that of a fresh object"""
+    from symplyphysics.core.symbols.celsius import Celsius  # pylint: disable=import-outside-toplevel
+    obj = Celsius(values[0])
+    other = Celsius(values[0]) if two_objects else None
+    out = [celsius_observe(obj, off_fr)]
+    for v in values[1:]:
+        obj.value = v
+        out.append(celsius_observe(obj, off_fr))
+    if other is not None:
+        out.append(celsius_observe(other, off_fr))
+    return out
+
+
+def stream_celsius_history(ctx, nseq, off_fr):
+    rng = ctx.rng
+    seqs = []
+    for _ in range(nseq):
+        pool = CELSIUS_VALUES + [-float(off_fr), rng.uniform(-273, 1000), rng.randrange(-200, 5000) / 8]
+        values = [rng.choice(pool) for _ in range(rng.choice([2, 3, 4]))]
+        two = rng.random() < 0.4
+        seqs.append({"values": values, "two": two, "results": run_celsius_history(values, off_fr, two)})
+    return seqs
+
+
+# ---- evaluate_expression with every flag combination ------------------------------------------------------------------
+EVAL_KWARGS = [{}, {"n": 3}, {"n": 8}, {"n": 30}, {"maxn": 200}, {"n": 3, "maxn": 50}]
+EVAL_CONSTANTS = ["u.elementary_charge", "u.planck", "u.electron_rest_mass", "u.boltzmann_constant", "u.speed_of_light", "u.avogadro_constant",
+    "u.vacuum_permittivity", "u.gravitational_constant"]
+EVAL_FIXED = [("3*u.elementary_charge", {}), ("u.planck*x/u.electron_rest_mass", {}), ("2*Quantity(Float(532e-9)*u.meter)", {"n": 3}),
+    ("x*Quantity(Rational(1,10**30)*u.joule)**2", {"n": 8}), ("Quantity(10**35*u.meter)/Quantity(Rational(1,10**35)*u.second)", {})]
+
+
+def gen_flag_expr(rng):
+    """a monomial (or m + k*m) over quantities / sympy constants with magnitudes 1e-40 .. 1e40, optionally with free symbols"""
+    factors = []
+    for _ in range(rng.choice([1, 1, 2, 3])):
+        if rng.random() < 0.3:
+            leaf = rng.choice(EVAL_CONSTANTS)
+        else:
+            k = rng.randrange(-40, 41)
+            mag = f"{rng.randrange(1, 999)}*Rational(10)**({k})" if rng.random() < 0.7 else f"Float({rng.uniform(1, 10)!r}e{k})"
+            leaf = f"Quantity(({mag})*{unitgen.pick_unit(rng, unitgen.pick_class(rng))})"
+        p = rng.choice([1, 1, 1, 2, -1, -2])
+        factors.append(f"({leaf})**({p})" if p != 1 else leaf)
+    src = "*".join(factors)
+    if rng.random() < 0.5:
+        src = f"Rational({rng.randrange(1, 50)},{rng.randrange(1, 9)})*" + src
+    if rng.random() < 0.35:
+        src = rng.choice(["x*", "x**2*", "x*y*"]) + src
+    if rng.random() < 0.2:
+        src = f"({src}) + 2*({src})"
+    return src
+
+
+def spec_evaluate_flags(src, kwargs):
+    """evaluate=True must be the numeric value of evaluate=False: relative agreement to the requested precision, never an
+    absolute cut.  -> (verdict, detail)"""
+    from symplyphysics.core.convert import evaluate_expression  # pylint: disable=import-outside-toplevel
+    ns = dict(unitgen.namespace())
+    ns["x"], ns["y"] = sympy.Symbol("x"), sympy.Symbol("y")
+    expr = eval(src, ns)  # pylint: disable=eval-used
+    exact = evaluate_expression(expr)
+    same = evaluate_expression(expr, evaluate=False, **kwargs)
+    try:
+        num = evaluate_expression(expr, evaluate=True, **kwargs)
+    except Exception as e:  # pylint: disable=broad-except
+        return False, f"evaluate=True raised {type(e).__name__}: {e}"
+    vals = {ns["x"]: Rational(7, 3), ns["y"]: Rational(-5, 2)}
+    a, b, c = (sympy.N(sympy.sympify(t).subs(vals), 40) for t in (exact, num, same))
+    if not (a.is_number and a.is_finite):
+        return None, f"evaluate=False gives {exact}"
+    digits = min(kwargs.get("n", 15), 15)           # Float scale factors carry 15 digits whatever n asks for
+    tol = min(sympy.Float("0.3"), max(sympy.Float("1e-12"), 40 * sympy.Float(10)**(1 - digits)))
+    detail = f"evaluate=False: {exact}; evaluate=True, {kwargs}: {num}"
+    if not (b.is_number and b.is_finite) or abs(b - a) > tol * abs(a):
+        return False, detail
+    if abs(c - a) > sympy.Float("1e-30") * abs(a):
+        return False, detail + f"; evaluate=False with kwargs: {same}"
+    return True, detail
 
 
 def replay_absolute_zero(ctx, off_fr):
@@ -1403,6 +1569,16 @@ def replay(ctx, rep):
         if alone:
             print(f"  the last call alone, in a fresh interpreter -> {alone[-1]['obs']}; specification predicate: {alone[-1]['spec']}")
         rc = 1 if res[-1][3] is False else 0
+    elif stream == "celsius-history":
+        vals = [float(v) for v in rep["values"]]
+        res = run_celsius_history(vals, Fraction(27315, 100), rep.get("second_object", False))
+        for v, (_lit, r) in zip(vals + vals[:1], res):
+            print(f"  value {r['c']!r}: to_kelvin {r['kelvin']!r}; to_kelvin_quantity {r['obs_q'][1:2]}; round trip {r['obs_b'][1:2]}; ok: {r['spec']}")
+        rc = 1 if res[-1][1]["spec"] is False else 0
+    elif stream == "evaluate-flags":
+        ok, detail = spec_evaluate_flags(rep["expr"], rep["kwargs"])
+        print(f"evaluate_expression({rep['expr']}, evaluate=True, **{rep['kwargs']}): {detail}; specification predicate: {ok}")
+        rc = 1 if ok is False else 0
     elif stream in ("celsius", "celsius-float"):
         from symplyphysics.core.symbols.celsius import Celsius, to_kelvin, from_kelvin, to_kelvin_quantity, from_kelvin_quantity  # pylint: disable=import-outside-toplevel
         if "celsius" in rep:
